@@ -318,14 +318,22 @@ func (w *world) afterStake(in *intent, ok bool, vmErr, log string, pre, post *sn
 	amt := si.amount
 	// shares a token amount is worth at a validator, at the exchange rate before the transaction (1:1 until
 	// the validator is slashed)
-	inShares := func(val string, tokens *big.Int) *big.Int {
+	inShares := func(val string, tokens *big.Int) (v *big.Int) {
 		r, ok := pre.rate[val]
 		if !ok {
 			return tokens
 		}
 		neg := tokens.Sign() < 0
+		defer func() {
+			// the SDK's decimal arithmetic overflows (panics) for such an amount: the native action cannot have
+			// executed, the expected effect stays the full amount and the comparison below reports it
+			if rec := recover(); rec != nil {
+				w.rec.Probe("stake.amount_overflows_sdk_decimal")
+				v = tokens
+			}
+		}()
 		// the staking module's own conversion: shares = amount * delegator shares / tokens
-		v := r.shares.MulInt(sdk.NewIntFromBigInt(new(big.Int).Abs(tokens))).QuoInt(r.tokens).TruncateInt().BigInt()
+		v = r.shares.MulInt(sdk.NewIntFromBigInt(new(big.Int).Abs(tokens))).QuoInt(r.tokens).TruncateInt().BigInt()
 		if neg {
 			v.Neg(v)
 		}
